@@ -138,9 +138,19 @@ def compare(base, var):
         return "variant-rejected"
     if base.get("run_timed_out") or var.get("run_timed_out"):
         return None if base.get("run_timed_out") == var.get("run_timed_out") else "behaviour-differs"
-    if (base["run_stdout"], base["run_exit"]) != (var["run_stdout"], var["run_exit"]):
+    if (_behaviour(base["run_stdout"]), base["run_exit"]) != (_behaviour(var["run_stdout"]), var["run_exit"]):
         return "behaviour-differs"
     return None
+
+
+_TRAP = re.compile(r"^in \S*::(\S+ : entered unreachable code)", re.M)
+
+
+def _behaviour(out):
+    """the output of the executable, without the *file* part of the location that a runtime trap
+    (`in mod1::lambda#f : entered unreachable code: ..`) prints: which file a function lives in is
+    exactly what a variant changes, and the message only says where the function is"""
+    return _TRAP.sub(r"in ::\1", out) if out else out
 
 
 # ------------------------------------------------------------------------------------------
